@@ -31,6 +31,7 @@ import (
 
 	"verif/harness/relay"
 	"verif/harness/trace"
+	"verif/harness/wsrelay"
 )
 
 // Magic starts every 32-byte block of application plaintext and the auth
@@ -112,6 +113,7 @@ type Session struct {
 	statMu    sync.Mutex
 	statIDs   map[*mailbox.ClientConn]int
 	statCount int
+	doors     []*wsrelay.Server
 	Host      string
 
 	S, C, X *Party
@@ -157,6 +159,10 @@ type Options struct {
 	SrvV1 bool
 	// PrePaired: both parties already know each other's static key.
 	PrePaired bool
+	// Websocket: the clients reach the relay through the REST/websocket
+	// front door (package wsrelay) with the real websocketTransport instead
+	// of the gRPC transport; the server always uses gRPC.
+	Websocket bool
 	Patience  time.Duration
 	// ReadBuf is the size of the buffer the client's / the server's reader
 	// passes to Read (default 40000).
@@ -271,13 +277,27 @@ func New(o Options) (*Session, error) {
 	if err != nil {
 		return nil, err
 	}
+	copts := []mailbox.ClientOption{mailbox.WithVerifHashMailClient(s.Relay)}
+	xopts := copts
+	chost, xhost := s.Host, s.Host
+	if o.Websocket {
+		for _, w := range []string{"c", "x"} {
+			fd, err := wsrelay.Serve(s.Relay, w)
+			if err != nil {
+				return nil, err
+			}
+			s.doors = append(s.doors, fd)
+		}
+		copts, xopts = nil, nil
+		chost, xhost = s.doors[0].Host, s.doors[1].Host
+	}
 	s.Cli, err = mailbox.NewClient(context.WithValue(s.ctx, mailbox.VerifWhoKey{}, &whoTag{s, "c"}),
-		s.Host, s.C.Data, mailbox.WithVerifHashMailClient(s.Relay))
+		chost, s.C.Data, copts...)
 	if err != nil {
 		return nil, err
 	}
 	s.XCli, err = mailbox.NewClient(context.WithValue(s.ctx, mailbox.VerifWhoKey{}, &whoTag{s, "x"}),
-		s.Host, s.X.Data, mailbox.WithVerifHashMailClient(s.Relay))
+		xhost, s.X.Data, xopts...)
 	if err != nil {
 		return nil, err
 	}
@@ -789,4 +809,7 @@ func (s *Session) Shutdown() {
 		s.Rec.Emit("harnessNote", "what", "Server.Close did not return")
 	}
 	s.cancel()
+	for _, d := range s.doors {
+		d.Close()
+	}
 }
